@@ -443,10 +443,23 @@ fn is_free(f: &Fam, segs: &str) -> bool {
                 return false;
             }
             let is_mark = |x: Option<char>| matches!(x, Some('-') | Some('+'));
-            if c[1] == '_' && is_mark(br.chars().next()) {
+            if c[1] == '_' && is_mark(probe.chars().next()) {
                 return false;
             }
-            if c[2] == '_' && is_mark(body.chars().last()) {
+            if c[2] == '_' && is_mark(body.chars().last().or(f.ce().chars().next())) {
+                return false;
+            }
+        }
+        if c[0] == 'G' {
+            // an unmarked opening side must not be followed by `-`/`+` (of the interior, the closing
+            // marker or an end delimiter such as `-->`)
+            let e = match c[1] {
+                'v' => f.ve(),
+                'b' => f.be(),
+                _ => f.ce(),
+            };
+            let all = format!("{}{}{}", unhexs(&it[4..]), mk(c[3]), e);
+            if c[2] == '_' && matches!(all.chars().next(), Some('-') | Some('+')) {
                 return false;
             }
         }
